@@ -1536,6 +1536,8 @@ def classify(case, pr, r, prev):
     LARGEST visual position -- two different characters (`se td=2`, lines `abcdefghijkl`, `<Arabic word>`; keys `$ j`, then `x` deletes the
     character at the other end of the word)."""
     try:
+        if os.environ.get('C19_NO_CLASSIFY'):
+            return None
         if pr[0] != 'cmd' or pr[1] == 0 or not r.get('what', '').endswith('terminal cursor not on the cell of the cursor character'):
             return None
         last = bytes.fromhex(case['atoms'][pr[1] - 1]).lstrip(DIGITS)
